@@ -65,7 +65,7 @@ func execute(d *dev) (run *hist.Run, blocks int, applied int) {
 					if d.Mode == "first-block" && first >= 0 && first != i {
 						continue
 					}
-					c := proto.Clone(m).(sdk.Msg)
+					c := clone(m)
 					if mutate(reflect.ValueOf(c), strings.Split(d.Field, "."), d.Value) {
 						txs[ti].Msgs[mi] = c
 						first = i
@@ -182,6 +182,10 @@ func run(r *report.Run, shard, nshards int, replayFile string) {
 }
 
 func judge(r *report.Run, d dev, run *hist.Run, blocks int) {
+	if run.Panic != nil && run.PanicStage == "script" {
+		fmt.Fprintf(os.Stderr, "harness error: script panicked under %s at height %d: %v\n", d, run.PanicAt, run.Panic)
+		os.Exit(2)
+	}
 	if run.Panic != nil {
 		p := fmt.Sprint(run.Panic)
 		if len(p) > 300 {
@@ -194,9 +198,28 @@ func judge(r *report.Run, d dev, run *hist.Run, blocks int) {
 		r.Violate("abort-error:"+d.MsgType+"."+d.Field, fmt.Sprintf("hostile %s=%s: FinalizeBlock returned an error after %d blocks", d.Field, d.Value, blocks), d)
 		return
 	}
-	if n := len(*capLog.Hits); n > 0 {
-		r.Violate("recovered-panic:"+d.MsgType+"."+d.Field, fmt.Sprintf("hostile %s=%s: %d panics recovered and logged by module code, first: %s", d.Field, d.Value, n, (*capLog.Hits)[0]), d)
+	var hits []string
+	for _, h := range *capLog.Hits {
+		if !strings.Contains(h, "recovered in runTx") { // tx-level panics are turned into tx errors by baseapp: not block processing
+			hits = append(hits, h)
+		}
 	}
+	if n := len(hits); n > 0 {
+		r.Violate("recovered-panic:"+d.MsgType+"."+d.Field, fmt.Sprintf("hostile %s=%s: %d panics recovered and logged by module code, first: %s", d.Field, d.Value, n, hits[0]), d)
+	}
+}
+
+// clone deep-copies a message through its wire encoding (proto.Clone cannot merge math.Int / LegacyDec).
+func clone(m sdk.Msg) sdk.Msg {
+	bz, err := proto.Marshal(m)
+	if err != nil {
+		panic(err)
+	}
+	c := reflect.New(reflect.TypeOf(m).Elem()).Interface().(sdk.Msg)
+	if err := proto.Unmarshal(bz, c); err != nil {
+		panic(err)
+	}
+	return c
 }
 
 func countTypes(ls []leaf) int {
